@@ -21,11 +21,16 @@ impl Uplink {
     pub fn confirms_downlink(&self) -> bool {
         self.confirmed
     }
-    pub fn add_mac_command<M: SerializableMacCommand>(&mut self, cmd: M) {
+    /// Queues a MAC command for the next uplink. Returns false (queueing nothing) when it
+    /// does not fit any more.
+    pub fn add_mac_command<M: SerializableMacCommand>(&mut self, cmd: M) -> bool {
         // Check that there's still enough room for MAC commands
         if self.pending.len() + cmd.payload_len() < FOPTS_MAX_LEN {
             let _ = self.pending.push(cmd.cid());
             self.pending.extend_from_slice(cmd.payload_bytes()).unwrap();
+            true
+        } else {
+            false
         }
     }
     pub fn clear_mac_commands(&mut self, retain_acks: bool) {
